@@ -453,6 +453,16 @@ fn settings_pool(rng: &mut Rng, mode: u8) -> Vec<(String, Difficulty)> {
         let s = crate::common::random_settings(rng, mode);
         v.push((format!("rnd{i}:{}", s.describe()), s.build(mode)));
     }
+    // the ends of the documented override range [-20, 20]: hit windows go negative above OD 13.33 (great) /
+    // 17.5 (ok), preempt goes negative above AR ~16.7 — the stored attributes must still be the builder's
+    // (seed C17-osu-setup-clamps-negative-windows clamped the stored windows at 0)
+    v.push(("od20w".into(), Difficulty::new().od(20.0, true)));
+    v.push(("od15".into(), Difficulty::new().od(15.0, false)));
+    v.push(("od18w+DT".into(), Difficulty::new().od(18.0, true).mods(64u32)));
+    v.push(("od-20".into(), Difficulty::new().od(-20.0, false).mods(256u32)));
+    v.push(("ar20w+od14".into(), Difficulty::new().ar(20.0, true).od(14.0, false).clock_rate(0.75)));
+    v.push(("ar-20+cs20+hp-20".into(), Difficulty::new().ar(-20.0, false).cs(20.0, false).hp(-20.0, true)));
+    v.push(("od13.5+rate2".into(), Difficulty::new().od(13.5, false).clock_rate(2.0)));
     v
 }
 
